@@ -754,6 +754,21 @@ class MultiStream(Stream):
         data = self.imol.data
         other_data = other.imol.data
         multiphase = other_data.ndim == 2
+        if multiphase and self.imol._phases != other.imol._phases:
+            # Line up the rows of the other stream with the rows of this stream 
+            # by phase (not by position)
+            get_phase_index = self.imol.get_phase_index
+            rows = [None] * len(data.rows)
+            for other_phase, row in zip(other.imol._phases, other_data.rows):
+                if other_phase in get_phase_index or row.any(): 
+                    index = get_phase_index(other_phase) # Raises UndefinedPhase if material would be lost
+                    if rows[index] is not None: 
+                        raise ValueError(f"cannot copy flows of two phases into phase {self.imol._phases[index]!r}")
+                    rows[index] = row
+            other_data = other_data.from_rows(
+                [i.__class__.from_size(i.size) if j is None else j 
+                 for i, j in zip(data.rows, rows)]
+            )
         if exclude:
             data = self.imol.data
             other_data = other.imol.data
